@@ -1132,7 +1132,7 @@ def run(ctx):
                                            '(units), length <= %d through WSGI; all %%X / %%XY items'
                                            % (ctx.budget(5, 6), ctx.budget(3, 4)))
     if ctx.quick():
-        check_requests(ctx, gen_mixed(ctx.rng, 8000))
+        check_requests(ctx, gen_mixed(ctx.rng, 5000))
     else:
         jobs = [(ctx.rng.getrandbits(48), 12500, ctx.tier) for _ in range(24)]
         for res in common.parallel_map(_worker, jobs):
